@@ -60,24 +60,37 @@ def ref_bb(cap, evs):
     cap carriers WHEN THE SESSION WAS ESTABLISHED decides, else no address; a further stream of a session (t<k>)
     carries the session's address whatever carriers came in between."""
     cs, out, sessions = [], [], []
+
+    def establish(i):
+        want = ""
+        for j, a in cs[:cap]:
+            if j == i:
+                want = a
+                break
+        own = set(a for j, a in cs if j == i)
+        foreign = set(a for j, a in cs if j != i) - own - {""}
+        sessions.append((want, own, foreign))
+        return len(sessions) - 1
+
     for ev in evs:
         if ev[0] == "c":
             i, _, p = ev[1:].split(":")
             cs.insert(0, (i, ref_sanitise(p)))
         elif ev[0] == "a":
-            i = ev[1:]
-            want = ""
-            for j, a in cs[:cap]:
-                if j == i:
-                    want = a
-                    break
-            own = set(a for j, a in cs if j == i)
-            foreign = set(a for j, a in cs if j != i) - own - {""}
-            sessions.append((want, own, foreign))
-            out.append((len(sessions) - 1, True) + sessions[-1])
+            k = establish(ev[1:])
+            out.append((k, True) + sessions[k] + (None,))
+        elif ev[0] == "b":
+            # a burst: no carrier starts during it, so every session of it is established against the same map
+            # contents; peers = what the OTHER sessions of the burst are entitled to
+            items = [it.split(".") for it in ev[3:].split("+")]
+            ks = [establish(it[0]) for it in items]
+            for k, it in zip(ks, items):
+                peers = set(sessions[j][0] for j in ks if j != k) - {sessions[k][0]}
+                for s in range(int(it[1])):
+                    out.append((k, s == 0) + sessions[k] + (peers,))
         else:
             k = int(ev[1:])
-            out.append((k, False) + sessions[k])
+            out.append((k, False) + sessions[k] + (None,))
     return out
 
 
@@ -122,7 +135,7 @@ def analyse(line, impl):
                 kind = {"a": "absent", "u": "unparsable"}.get(a[3], "unspecified")
                 return ("sanitise-accepts-" + kind, "clientAddr gave %r for an %s client_ip" % (bytes.fromhex(impl[1:]), kind))
             return ("sanitise-render", "clientAddr gave %r, expected %r" % (bytes.fromhex(impl[1:]), bytes.fromhex(want[1:])))
-    elif op in ("bb", "bb0"):
+    elif op in ("bb", "bb0", "burst"):
         cap = int(a[2])
         evs = a[3].split(",")
         exp = ref_bb(cap, evs)
@@ -130,7 +143,14 @@ def analyse(line, impl):
         if len(got) != len(exp):
             return ("bb-output", "expected %d accepted connections, got %s" % (len(exp), impl[:100]))
         first = {}
-        for k, (g, (sk, is_first, want, own, foreign)) in enumerate(zip(got, exp)):
+        for k, (g, (sk, is_first, want, own, foreign, peers)) in enumerate(zip(got, exp)):
+            if peers is not None and g != "n":
+                s = bytes.fromhex(g[1:]).decode("utf-8", "replace")
+                if s != want and s in peers:
+                    return ("foreign-address-in-burst",
+                            "connection #%d, a stream of session %d (one of several sessions established back to back), has "
+                            "RemoteAddr() %r, which is the address of ANOTHER session of the burst; this session's ClientID "
+                            "maps to %r" % (k, sk, s, want))
             if is_first:
                 first[sk] = (k, g)
             elif g != first[sk][1]:
@@ -401,6 +421,85 @@ def gen_bb(ctx, exe):
     return lines, kinds
 
 
+def gen_burst(ctx, exe):
+    """k = 2..16 sessions of distinct clients (distinct ClientIDs and client_ip values, one of them without an
+    address) whose first packets reach the KCP listener together, so that acceptSessions accepts them back to back
+    and the session goroutines are scheduled after further accepts; some sessions open several streams.  The
+    model runs the same burst on the interleaving machine of Model/ServerAccept.v with a start order (ranks)
+    drawn here; C18_burst_order_irrelevant is why the order cannot matter."""
+    rng = ctx.rng
+    thorough = ctx.tier == "thorough"
+    ids = ["%016x" % v for v in [0, 1, 0x0100000000000000, 0xffffffffffffffff] + [0x1000 + 7 * i for i in range(16)]]
+    v4 = ["10.%d.%d.%d" % (i, 2 * i + 1, 200 - i) for i in range(1, 20)]
+    v6 = ["2001:db8:%x::%x" % (i, i + 1) for i in range(1, 20)]
+    none = ["", "0.0.0.0", "::", "garbage", "fe80::1%eth0"]
+    allips = v4 + v6 + none
+    parsed = dict(zip(allips, parse_all(exe, allips)))
+
+    def carrier(i, s):
+        return "c%s:%s:%s" % (i, hx(s), parsed[s])
+
+    plan = []
+    if thorough:
+        for mode in "1nw":
+            for k in range(2, 17):
+                plan.append((mode, k))
+        plan += [(rng.choice("1nw"), rng.randrange(2, 17)) for _ in range(60)]
+    else:
+        plan = [("1", k) for k in (2, 3, 5, 9, 16)] + [("n", k) for k in (2, 4, 16)] + [("w", k) for k in (2, 7, 16)]
+        plan += [(rng.choice("1nw"), rng.randrange(2, 17)) for _ in range(5)]
+    scen = []
+    for mode, k in plan:
+        pool = rng.sample(ids, k)
+        good = rng.sample(v4 + v6, k)
+        ips = list(good)
+        for j in rng.sample(range(k), rng.choice([1, 1, 2]) if k > 2 else 1):
+            ips[j] = rng.choice(none)                  # at least one session without an address
+        cap = rng.choice([k, k, k + 1, k + 5, 50, max(0, k - 1), max(1, k // 2)])
+        evs = []
+        nsess = 0
+        if rng.random() < 0.3:                         # a session before the burst: the burst's indices do not start at 0
+            evs += [carrier(pool[0], rng.choice(good)), "a" + pool[0]]
+            nsess += 1
+        order = list(range(k))
+        rng.shuffle(order)
+        for j in order:
+            if rng.random() < 0.25:                    # an older carrier of the same client with another address
+                evs.append(carrier(pool[j], rng.choice(v4)))
+            evs.append(carrier(pool[j], ips[j]))
+        ranks = list(range(k))
+        rng.shuffle(ranks)
+        streams = [rng.choice([1, 1, 1, 2, 3, 4]) for _ in range(k)]
+        evs.append("b%s+" % mode + "+".join("%s.%d.%d" % (pool[j], streams[j], ranks[j]) for j in range(k)))
+        for _ in range(rng.choice([0, 0, 1, 3])):      # later streams of sessions of the burst
+            evs.append("t%d" % (nsess + rng.randrange(k)))
+        scen.append((cap, mode, k, evs))
+    lines = ["%s burst %d %s" % (AREA, cap, ",".join(evs)) for cap, mode, k, evs in scen]
+    kinds = ["burst-%s-k%s" % ({"1": "oneP", "n": "inject", "w": "carriers"}[mode], "2-4" if k <= 4 else "5-9" if k <= 9 else "10-16")
+             for cap, mode, k, evs in scen]
+    return lines, kinds
+
+
+def race_burst(ctx, lines):
+    """the burst workload once more on a -race build: an address shared between the accept loop and the session
+    goroutines is a data race as well"""
+    try:
+        rexe = vlib.go_test_build(PKG, race=True)
+    except Exception as e:
+        ctx.not_shown("race build of %s failed: %s" % (PKG, str(e)[-300:]))
+        return
+    rc, out, err = vlib.run_impl(rexe, lines, args=IMPL_ARGS)
+    ctx.extra["race_burst_cases"] = len(lines)
+    reports = [r for r in err.split("WARNING: DATA RACE")[1:]]
+    mine = [r for r in reports if "acceptSessions" in r or "acceptStreams" in r]
+    ctx.extra["race_reports_elsewhere"] = len(reports) - len(mine)
+    if mine:
+        ctx.violation("race-accept-loop", "data race between the accept loop and a session goroutine (go test -race):\n" + mine[0][:1500],
+                      dict(label="race-burst", case=lines[0][:20000], stderr=mine[0][:3000]))
+    elif len(out) != len(lines):
+        ctx.not_shown("race build of the driver died on the burst cases (rc=%s): %s" % (rc, err[-400:]))
+
+
 def run(ctx):
     os.environ["VERIF_DRIVER"] = "1"
     exe = vlib.go_test_build(PKG)
@@ -410,9 +509,14 @@ def run(ctx):
         "black-box scenarios swap the package variable clientIDAddrMap for a small-capacity map before Transport.Listen; "
         "gorilla/websocket, kcp-go, smux carry the sessions and are not modelled; a session's further streams (t-events) are "
         "opened one at a time and the next connection the listener hands out is taken to be that stream's",
+        "burst scenarios: the KCP clients' first packets are held back and delivered together - into the server's "
+        "QueuePacketConn (reached in-package through the listener's http.Server handler), under runtime.GOMAXPROCS(1) in one "
+        "mode, or through the carriers; each stream is attributed to its session by a tag its client writes first",
     ]
     ctx.assumptions += [
-        "models = coq/Model/ClientIdRing.v, ClientAddr.v, ServerCarrier.v (hand written); tie = correspondence on generated cases",
+        "models = coq/Model/ClientIdRing.v, ClientAddr.v, ServerCarrier.v, ServerAccept.v (hand written); tie = correspondence on generated cases",
+        "bursts: the model runs the accept-loop machine under a start order drawn by the generator, the Go runtime picks its own; "
+        "C18_burst_order_irrelevant (no carrier starts during a burst) is why the answers must agree",
         "ClientIDs are exactly 8 bytes (turbotunnel.ClientID)",
     ]
     lines, kinds = gen_ring(ctx)
@@ -421,6 +525,10 @@ def run(ctx):
     ctx.correspond(exe, lines, kinds, label="clientAddr", prop=prop, key_of=key_of, impl_args=IMPL_ARGS, crosscheck=25)
     lines, kinds = gen_bb(ctx, exe)
     ctx.correspond(exe, lines, kinds, label="listener-attribution", prop=prop, key_of=key_of, impl_args=IMPL_ARGS, crosscheck=6)
+    lines, kinds = gen_burst(ctx, exe)
+    ctx.correspond(exe, lines, kinds, label="listener-burst", prop=prop, key_of=key_of, impl_args=IMPL_ARGS, crosscheck=4)
+    step = max(1, len(lines) // (4 if ctx.tier == "quick" else 20))
+    race_burst(ctx, lines[::step])
 
 
 def replay(ctx, doc):
